@@ -421,9 +421,12 @@ def r3(chk, facts):
     MAX, CRC = K["MAX_LENGTH_IN_BYTES"], K["CRC_LENGTH_IN_BYTES"]
     pb = c.attr_item(r"binary_parser::PrincipalBytes$")
     fl = {f["name"]: " ".join(f["attrs"]) for f in pb["fields"]}
-    m = re.search(r"assert\(\s*len\s*<=\s*(\d+)", fl.get("len", ""))
-    m2 = re.search(r"assert\(\s*len\s*<\s*(\d+)", fl.get("len", ""))
-    lim = int(m.group(1)) if m else (int(m2.group(1)) - 1 if m2 else None)
+    # `assert(len <= N` / `assert(len < N`, with N a literal or (a cast of) Principal::MAX_LENGTH_IN_BYTES
+    mm = re.search(r"assert\(\s*len\s*(<=|<)\s*((?:\d+)|(?:[\w:]*MAX_LENGTH_IN_BYTES))", fl.get("len", ""))
+    lim = None
+    if mm:
+        bound = int(mm.group(2)) if mm.group(2).isdigit() else MAX
+        lim = bound if mm.group(1) == "<=" else bound - 1
     if lim is None:
         raise AnchorMissing(f"PrincipalBytes.len: binread assertion `len <= N` not found in {fl.get('len')!r}")
     chk.expect(lim == MAX, "wire-limit", f"the header/value parser accepts principals of up to {lim} bytes on the wire, "
